@@ -183,6 +183,7 @@ pub fn c04(thorough: bool) -> Vec<Unit> {
     }
     v.push(c04_phase_sweep(thorough));
     v.push(deadline_walk(thorough));
+    v.push(big_batch_expiry_race(thorough));
     v
 }
 
@@ -433,13 +434,13 @@ pub fn deadline_walk(thorough: bool) -> Unit {
     let phases: Vec<u64> = if thorough { vec![0, 1_000, 37_000, 50_500, 99_000] } else { vec![0, 37_000, 99_000] };
     let f: ScenFn = scen!([gaps] |cx| {
         let gap = gaps[cx.choose("gap-ms", gaps.len())];
-        let third = cx.choose("third-delivery", 2) == 1;
+        let n = [2usize, 3, 12, 40][cx.choose("deliveries", 4)];
         let a = cx.api.clone();
         let fail = |what: &str| ScenarioOut::viol(format!("setup/{}", what), what.to_string());
         if tryv!(cx.settle("setup:create-topic", { let a = a.clone(); async move { a.create_topic(T0).await } }).await).is_err() { return fail("create-topic"); }
         if tryv!(cx.settle("setup:create-sub", { let a = a.clone(); async move { a.create_sub(S0, T0, 10, None).await } }).await).is_err() { return fail("create-sub"); }
-        if tryv!(cx.settle("setup:publish", { let a = a.clone(); async move { a.publish(T0, vec![(b"a".to_vec(), vec![]), (b"b".to_vec(), vec![]), (b"c".to_vec(), vec![])]).await } }).await).is_err() { return fail("publish"); }
-        let n = if third { 3 } else { 2 };
+        let total = n + 1;
+        if tryv!(cx.settle("setup:publish", { let a = a.clone(); async move { a.publish(T0, (0..total).map(|i| (format!("m{}", i).into_bytes(), vec![])).collect()).await } }).await).is_err() { return fail("publish"); }
         let mut los = vec![];
         for i in 0..n {
             if i > 0 {
@@ -454,8 +455,8 @@ pub fn deadline_walk(thorough: bool) -> Unit {
         }
         let (first, last) = (los[0], *los.last().unwrap());
         let case = format!("gap={}ms deliveries={}", gap, n);
-        let mut prev_backlog = 3 - n;
-        let base = 3 - n;
+        let mut prev_backlog = total - n;
+        let base = total - n;
         for t in first - 2..=last + SLACK_MS + 2 {
             let was = cx.freeze(true);
             let q = cx.advance_to_ms(t).await;
@@ -463,8 +464,8 @@ pub fn deadline_walk(thorough: bool) -> Unit {
             tryv!(q);
             // the stats request is itself a request that reaches the subscription actor between two expiries
             let Some(st) = tryv!(cx.stats(S0).await) else { return fail("stats") };
-            if st.backlog + st.outstanding != 3 {
-                return ScenarioOut::viol("deadline-walk/message-lost-or-duplicated", format!("{}: at t={} ms the subscription holds backlog={} outstanding={} (3 unacknowledged messages exist)", case, t, st.backlog, st.outstanding));
+            if st.backlog + st.outstanding != total {
+                return ScenarioOut::viol("deadline-walk/message-lost-or-duplicated", format!("{}: at t={} ms the subscription holds backlog={} outstanding={} ({} unacknowledged messages exist)", case, t, st.backlog, st.outstanding, total));
             }
             let must_hold = los.iter().filter(|lo| t < **lo).count();
             let must_be_back = los.iter().filter(|lo| t >= **lo + SLACK_MS).count();
@@ -480,17 +481,72 @@ pub fn deadline_walk(thorough: bool) -> Unit {
             prev_backlog = st.backlog;
         }
         // and they are really deliverable again
-        let got = tryv!(cx.settle("client:pull", { let a = a.clone(); async move { a.pull(S0, 10, true).await } }).await);
-        if got.as_ref().map(|v| v.len()) != Ok(3) {
+        let got = tryv!(cx.settle("client:pull", { let a = a.clone(); async move { a.pull(S0, 1000, true).await } }).await);
+        if got.as_ref().map(|v| v.len()) != Ok(total) {
             return ScenarioOut::viol("deadline-walk/not-deliverable", format!("{}: the final Pull returned {:?} messages", case, got.map(|v| v.len())));
         }
         ScenarioOut { sample: Some(case.clone()), ..ScenarioOut::ok(case) }
     });
     explore_unit(
         "input/deadline-walk",
-        format!("two or three deliveries handed out {:?} ms apart, phases {:?} µs; the clock walks in 1 ms steps from 2 ms before the first deadline to 107 ms after the last, with a request to the subscription actor at every step: nothing lost or duplicated, nothing back before its deadline, everything back by deadline + {} ms", gaps, phases, SLACK_MS),
+        format!("2, 3, 12 or 40 deliveries handed out {:?} ms apart, phases {:?} µs; the clock walks in 1 ms steps from 2 ms before the first deadline to 107 ms after the last, with a request to the subscription actor at every step: nothing lost or duplicated, nothing back before its deadline, everything back by deadline + {} ms", gaps, phases, SLACK_MS),
         Bounds::new(0),
         ExecCfg { points_on: false, phase_choices: phases, ..Default::default() },
+        f,
+    )
+}
+
+/// C04 / C01: a large batch expires at the very instant at which a request reaches the subscription.
+pub fn big_batch_expiry_race(thorough: bool) -> Unit {
+    let f: ScenFn = scen!(|cx| {
+        let n = [2usize, 255, 256, 300, 1000][cx.choose("batch", 5)];
+        let a = cx.api.clone();
+        let fail = |what: &str| ScenarioOut::viol(format!("setup/{}", what), what.to_string());
+        if tryv!(cx.settle("setup:create-topic", { let a = a.clone(); async move { a.create_topic(T0).await } }).await).is_err() { return fail("create-topic"); }
+        if tryv!(cx.settle("setup:create-sub", { let a = a.clone(); async move { a.create_sub(S0, T0, 10, None).await } }).await).is_err() { return fail("create-sub"); }
+        if tryv!(cx.settle("setup:publish", { let a = a.clone(); async move { a.publish(T0, (0..n).map(|i| (format!("{}", i).into_bytes(), vec![])).collect()).await } }).await).is_err() { return fail("publish"); }
+        let got = tryv!(cx.settle("setup:pull", { let a = a.clone(); async move { a.pull(S0, 1000, true).await } }).await);
+        if got.map(|v| v.len()) != Ok(n) { return fail("pull"); }
+        let was = cx.freeze(true);
+        let q = cx.advance_to_ms(9_999).await;
+        cx.freeze(was);
+        tryv!(q);
+        // the clock reaches the deadline and, in the same scheduler turn, requests arrive
+        let kind = cx.choose("coincident-request", 3);
+        tokio::time::advance(std::time::Duration::from_millis(2)).await;
+        let mut hs = vec![];
+        for i in 0..2 {
+            let a2 = a.clone();
+            hs.push(cx.spawn(&format!("client:{}-probe", i), async move {
+                match kind {
+                    0 => { let _ = a2.get_sub(S0).await; }
+                    1 => { let _ = a2.publish(T0, vec![(b"new".to_vec(), vec![])]).await; }
+                    _ => { let _ = a2.ack(S0, vec!["999999".into()]).await; }
+                }
+            }));
+        }
+        tryv!(cx.quiesce().await);
+        let extra = if kind == 1 { 2 } else { 0 };
+        let case = format!("batch={} coincident={}", n, ["GetSubscription", "Publish", "Acknowledge(unknown)"][kind]);
+        let Some(st) = tryv!(cx.stats(S0).await) else { return fail("stats") };
+        if st.backlog + st.outstanding != n + extra {
+            return ScenarioOut::viol("expiry-race/message-lost-or-duplicated", format!("{}: at the deadline the subscription holds backlog={} outstanding={} ({} unacknowledged messages exist)", case, st.backlog, st.outstanding, n + extra));
+        }
+        let was = cx.freeze(true);
+        let q = cx.advance_to_ms(10_000 + SLACK_MS).await;
+        cx.freeze(was);
+        tryv!(q);
+        let Some(st) = tryv!(cx.stats(S0).await) else { return fail("stats") };
+        if st.backlog != n + extra || st.outstanding != 0 {
+            return ScenarioOut::viol("expiry-race/not-redelivered", format!("{}: after deadline + slack backlog={} outstanding={}", case, st.backlog, st.outstanding));
+        }
+        ScenarioOut { sample: Some(case.clone()), ..ScenarioOut::ok(case) }
+    });
+    explore_unit(
+        "sched/big-batch-expiry-race",
+        "2 / 255 / 256 / 300 / 1000 deliveries of one Pull expire at the instant at which two requests (GetSubscription | Publish | Acknowledge) reach the subscription; every order of the expiry, the requests and the actor's select! within the deviation bound; nothing lost, everything redelivered by deadline + slack",
+        Bounds::new(if thorough { 3 } else { 2 }),
+        ExecCfg { max_steps: 200_000, ..Default::default() },
         f,
     )
 }
